@@ -448,14 +448,20 @@ def build_conv_affine(p, osh, aux):
 
     h = Host()
     k = p["k"]
-    h.inp("x", "f32", (np.arange(1, 7, dtype=np.float32) - 3).reshape(1, 2, 3, 1))
+    h.inp("x", "f32", (np.arange(1, 9, dtype=np.float32) - 3).reshape(1, 2, 4, 1))
     wv = np.array([(2 * (i % 3)) - 1 for i in range(1, 4 * k + 1)], dtype=np.float32).reshape(2, 2, k, 1)
     h.operand("w", p["wkind"], "f32", wv, alt=wv + 1)
     h.operand("b", p["wkind"], "f32", np.array([5, -1], dtype=np.float32), alt=np.array([0, 0], dtype=np.float32))
     cs = list(p["cs"])
     h.operand("scale", p["ckind"], "f32", np.full(cs, p["sc"], dtype=np.float32), alt=np.full(cs, p["sc"] + 1, dtype=np.float32))
     h.operand("offset", p["ckind"], "f32", np.full(cs, p["of"], dtype=np.float32), alt=np.full(cs, p["of"] + 1, dtype=np.float32))
-    attrs = {"zero": {"pads": [0, 0, 0, 0]}, "absent": {}, "nonzero": {"pads": [1, 0, 0, 0]}}[p["pads"]]
+    attrs = dict({"zero": {"pads": [0, 0, 0, 0]}, "absent": {}, "nonzero": {"pads": [1, 0, 0, 0]}}[p["pads"]])
+    if p["auto"] != "absent":
+        attrs["auto_pad"] = p["auto"]
+    if p["cv"] == "stride2":
+        attrs["strides"] = [2, 1]
+    if p["cv"] == "dil2":
+        attrs["dilations"] = [2, 1]
     if p["rule"] == "affine_conv":
         h.node("Mul", ["x", "scale"], ["t1"])
         h.node("Add", ["t1", "offset"], ["t2"])
@@ -653,7 +659,7 @@ def build_reshape_reshape(p, osh, aux):
         h.inp("s2", "i64", np.array(p["s2"], dtype=np.int64))
     else:
         h.operand("s2", p["skind"], "i64", np.array(p["s2"], dtype=np.int64))
-    h.node("Reshape", ["x", "s1"], ["t"])
+    h.node("Reshape", ["x", "s1"], ["t"], **({"allowzero": 1} if p["az1"] else {}))
     attrs = {} if p["az"] == NONE else {"allowzero": p["az"]}
     h.node("Reshape", ["t", "s2"], ["r"], **attrs)
     if p["ovi"]:
@@ -780,6 +786,99 @@ BUILDERS = {"relus_clips": build_relus_clips, "min_max": build_min_max, "no_op":
             "slice_split": build_slice_split, "transposes": build_transposes, "unsqueeze2": build_unsqueeze2,
             "squeeze_reshape": build_squeeze_reshape, "matmul_reshape": build_matmul_reshape, "matmul_add_gemm": build_matmul_add_gemm,
             "gemm_matmul_add": build_gemm_matmul_add, "optional_bias": build_optional_bias, "pad_conv": build_pad_conv, "conv_affine": build_conv_affine, "batchnorm": build_batchnorm}
+
+
+# ------------------------------------------------------------------ unpinned attributes
+# For every family: the operators of the matched pattern and, for EVERY attribute their opset-18 schema declares, how the
+# parameter space of Rules.tla treats it:
+#   "pinned"  - the pattern spells the value out (other values are near-misses and are in the menu)
+#   "read"    - the rule's check()/rewrite() reads it; swept over the values that decide the condition
+#   "swept"   - neither pinned nor read by the rule (the dangerous kind): swept over legal values with a semantic effect
+#   "copied:<why>" / "unswept:<why>" - not swept, with the reason (attributes copied wholesale, no effect on the values
+#               the hosts compute, or no runtime can execute the variant)
+# check_attr_table() compares the table with the real ONNX schemas, so an attribute nobody classified (a new opset, a
+# new family) is a machinery failure instead of a silent omission.
+ATTR_TABLE = {
+    "relus_clips": {"Relu": {}, "Clip": {}},
+    "min_max": {"Min": {}, "Max": {}},
+    "no_op": {"Add": {}, "Sub": {}, "Mul": {}, "Div": {}},
+    "dropout": {"Dropout": {"seed": "unswept:no effect in inference mode (ratio / training_mode are inputs from opset 12 on; "
+                                    "the opset-10 attribute ratio is pinned)"}},
+    "cast_cos": {"ConstantOfShape": {"value": "read"}, "Cast": {"to": "read"}},
+    "casts": {"Cast": {"to": "read"}},
+    "scatter_static": {"ScatterND": {"reduction": "swept"}},
+    "scatter_dynamic": {"ScatterND": {"reduction": "pinned"}, "Shape": {"start": "pinned", "end": "unswept:any legal value either "
+                        "leaves Gather(shape, axis) unchanged or makes the host invalid"}, "Gather": {"axis": "pinned"}, "Range": {},
+                        "Unsqueeze": {}, "Transpose": {"perm": "read"}},
+    "expand_binop": {"Expand": {}, "Mod": {"fmod": "swept"}, "BitShift": {"direction": "swept"}, "Add": {}, "Sub": {}, "Mul": {},
+                     "Div": {}, "Pow": {}, "PRelu": {}, "And": {}, "Or": {}, "Xor": {}, "Equal": {}, "Greater": {}, "GreaterOrEqual": {},
+                     "Less": {}, "LessOrEqual": {}, "BitwiseAnd": {}, "BitwiseOr": {}, "BitwiseXor": {}},
+    "materialize": {"Reshape": {"allowzero": "swept"}},
+    "collapse_slices": {"Slice": {}},
+    "no_op_expand": {"Expand": {}},
+    "reshape_reshape": {"Reshape": {"allowzero": "swept"}},          # both Reshapes: az (read, second) and az1 (first)
+    "flatten": {"Flatten": {"axis": "read"}},
+    "slice_split": {"Slice": {}},
+    "transposes": {"Transpose": {"perm": "read"}},
+    "unsqueeze2": {"Unsqueeze": {}},
+    "squeeze_reshape": {"Squeeze": {}, "Reshape": {"allowzero": "unswept:the target is pinned to [-1], where allowzero has no effect"}},
+    "matmul_reshape": {"Reshape": {"allowzero": "unswept:the reshape targets in the menu contain no 0"}, "MatMul": {}},
+    "matmul_add_gemm": {"MatMul": {}, "Add": {}, "Transpose": {"perm": "pinned"}},
+    "gemm_matmul_add": {"Reshape": {"allowzero": "unswept:the reshape targets in the menu contain no 0"},
+                        "Gemm": {"alpha": "pinned", "beta": "pinned", "transA": "swept", "transB": "swept"}},
+    "optional_bias": {"Gemm": {"alpha": "copied:all attributes are passed on (**node.attributes)", "beta": "copied:same", "transA": "copied:same",
+                               "transB": "swept"},
+                      "Conv": {"auto_pad": "copied:all attributes are passed on", "dilations": "copied:same", "group": "copied:same",
+                               "kernel_shape": "copied:same", "pads": "copied:same", "strides": "swept"},
+                      "ConvTranspose": {"auto_pad": "copied:all attributes are passed on", "dilations": "copied:same", "group": "copied:same",
+                                        "kernel_shape": "copied:same", "output_padding": "copied:same", "output_shape": "copied:same",
+                                        "pads": "copied:same", "strides": "swept"}},
+    "pad_conv": {"Pad": {"mode": "read"},
+                 "Conv": {"auto_pad": "read", "dilations": "swept", "group": "copied:all attributes are passed on; the hosts have group 1",
+                          "kernel_shape": "read", "pads": "read", "strides": "read"},
+                 "ConvInteger": {"auto_pad": "read", "dilations": "swept", "group": "copied:all attributes are passed on; the hosts have group 1",
+                                 "kernel_shape": "read", "pads": "read", "strides": "read"}},
+    "conv_affine": {"Mul": {}, "Add": {},
+                    "Conv": {"auto_pad": "swept", "dilations": "swept", "group": "copied:all attributes are passed on; the hosts have group 1",
+                             "kernel_shape": "copied:all attributes are passed on", "pads": "pinned", "strides": "swept"}},
+    "batchnorm": {"BatchNormalization": {"epsilon": "read", "momentum": "unswept:no effect in inference mode",
+                                         "training_mode": "unswept:training mode needs three outputs, which the single-output pattern does "
+                                                          "not match, and ORT refuses every other form"},
+                  "Gemm": {"alpha": "swept", "beta": "swept", "transA": "unswept:does not enter the fused constants", "transB": "read"},
+                  "Conv": {"auto_pad": "copied:all attributes are passed on; kernel size 1", "dilations": "copied:same", "group": "swept",
+                           "kernel_shape": "copied:same", "pads": "copied:same", "strides": "copied:same"},
+                  "ConvTranspose": {"auto_pad": "copied:all attributes are passed on; kernel size 1", "dilations": "copied:same", "group": "read",
+                                    "kernel_shape": "copied:same", "output_padding": "copied:same", "output_shape": "copied:same",
+                                    "pads": "copied:same", "strides": "copied:same"}},
+}
+
+
+def check_attr_table():
+    """every attribute of every matched operator (opset 18) is classified, and nothing in the table is stale"""
+    import onnx
+
+    problems = []
+    for fam in FAMILIES:
+        if fam not in ATTR_TABLE:
+            problems.append(f"family {fam} has no entry")
+    for fam, ops in ATTR_TABLE.items():
+        for op, attrs in ops.items():
+            real = set(onnx.defs.get_schema(op, 18, "").attributes)
+            for a in sorted(real - set(attrs)):
+                problems.append(f"{fam}: attribute {op}.{a} is not classified")
+            for a in sorted(set(attrs) - real):
+                problems.append(f"{fam}: {op} has no attribute {a}")
+            for a, st in attrs.items():
+                if st.split(":")[0] not in ("pinned", "read", "swept", "copied", "unswept"):
+                    problems.append(f"{fam}: {op}.{a}: unknown status {st}")
+    if problems:
+        raise core.MachineryError("unpinned-attribute table: " + "; ".join(problems[:8]))
+    counts = {}
+    for ops in ATTR_TABLE.values():
+        for attrs in ops.values():
+            for st in attrs.values():
+                counts[st.split(":")[0]] = counts.get(st.split(":")[0], 0) + 1
+    return counts
 
 
 # ------------------------------------------------------------------ observation
@@ -1055,7 +1154,7 @@ def nontrivial(c):
 
 def select(ctx, cases):
     """thorough: every tuple TLC printed.  quick: every tuple on which the model says the rule fires, raises or deviates,
-    plus a seeded sample of the tuples on which it declines (per family at most 300 with an underivable fact, 150 others)"""
+    plus the tuples on which it declines (a seeded sample only if a family has more than 3000 of a kind)"""
     cases = [c for c in cases if c["lhs"]["dt"] != "ERR"]      # hosts without a defined original meaning are not generated
     fams = os.environ.get("VERIF_C05_FAMILIES")
     if fams:
@@ -1079,7 +1178,7 @@ def select(ctx, cases):
         rest = [c for c in cs if not (c["why"] or nontrivial(c))]
         # declining tuples: those where a needed fact is not derivable from the model (the near-misses the property
         # talks about) are sampled separately from the plain algebraic near-misses
-        for part, cap in (([c for c in rest if c["unknown"]], 300), ([c for c in rest if not c["unknown"]], 150)):
+        for part, cap in (([c for c in rest if c["unknown"]], 3000), ([c for c in rest if not c["unknown"]], 3000)):
             if len(part) > cap:
                 rng.shuffle(part)
                 part = part[:cap]
@@ -1092,6 +1191,7 @@ def select(ctx, cases):
 
 def run(ctx: core.Ctx):
     logging.getLogger("onnxscript").setLevel(logging.CRITICAL)
+    ctx.set("matched_op_attributes", check_attr_table())
     cases = tlc_cases(ctx)
     ctx.set("spec_cases", len(cases))
     chosen, exhaustive = select(ctx, cases)
@@ -1138,7 +1238,7 @@ def run(ctx: core.Ctx):
         "onnxruntime (optimizations disabled) implements the operators involved as the ONNX operator text says; it is the common judge of before and after",
         "'for all inputs' is sampled by one integer-valued test tensor per host that contains every value of -3..3 (elementwise rules), plus a second feed that changes every operand the model does not fix (graph inputs, overridable initializers)",
         "hosts ORT refuses although the operator text gives them a meaning (auto_pad SAME_* with dilations) are judged against onnx.reference, and only when it returns exactly the tensor Rules.tla computes",
-        "quick tier replays every tuple on which the model fires / raises / deviates and a seeded sample of the declining tuples (per family at most 300 with an underivable fact and 150 others); thorough replays every tuple",
+        "quick tier replays every tuple on which the model fires / raises / deviates and the declining tuples (a seeded sample only where a family has more than 3000 of them); thorough replays every tuple",
         "signed zeros, NaN/inf inputs and float rounding (e.g. double rounding in cast_cast) are outside the integer-valued domain of the spec",
     ]
 
